@@ -405,8 +405,39 @@ def _under_sched(fn, want_write=None, horizon=4.0):
     return box['v']
 
 
+MEM_HEADROOM = 512 << 20
+
+
+@contextlib.contextmanager
+def _mem_budget():
+    """Budget for one real call: the process may grow by MEM_HEADROOM of address space, beyond that the
+    code under test gets a MemoryError (recorded like any other exception it raises).  A URI that a changed
+    tree mis-reads as a huge device index makes RadioManager.open pad a list up to that index; without the
+    budget thousands of such calls in 16 workers do not terminate in reasonable time."""
+    import resource
+    soft, hard = resource.getrlimit(resource.RLIMIT_AS)
+    with open('/proc/self/statm') as f:
+        cur = int(f.read().split()[0]) * resource.getpagesize()
+    lim = cur + MEM_HEADROOM
+    if hard != resource.RLIM_INFINITY:
+        lim = min(lim, hard)
+    resource.setrlimit(resource.RLIMIT_AS, (lim, hard))
+    try:
+        yield
+    finally:
+        resource.setrlimit(resource.RLIMIT_AS, (soft, hard))
+
+
 def run_event(o):
-    """One real call -> one event of the trace."""
+    """One real call -> one event of the trace (k = enumeration order of the dongles at that moment,
+    s = the string handed to the code: both only for the report / the replay, not for the monitor)."""
+    with _mem_budget():
+        ev = _run_event(o)
+    ev['k'] = ENV.get('order', IDENT)[0]
+    return ev
+
+
+def _run_event(o):
     import cflib.crtp as crtp
     _fresh_radio_state()
     kind = o['e']
@@ -414,7 +445,7 @@ def run_event(o):
         return _run_scan(o)
     u = o['u']
     s = render(u)
-    ev = {'e': kind, 'u': u}
+    ev = {'e': kind, 'u': u, 's': s}
     if kind == 'parse':
         ev['r'] = _parse_obs(s)
     elif kind == 'claim':
@@ -532,6 +563,7 @@ MUTANTS = {
     'rate_limit_ignored': ((_RD, 'RadioDriver', 'parse_uri'), "'rate_limit' in parsed_query", "'ratelimit' in parsed_query"),
     'connect_no_set_address': ((_RD, 'RadioDriver', 'connect'), 'self._radio.set_address(address)', 'pass'),
     'scan_drops_address': ((_RD, 'RadioDriver', 'scan_interface'), 'address is None or address == DEFAULT_ADDR', 'True or address == DEFAULT_ADDR'),
+    'scan_addr_reversed': ((_RD, 'RadioDriver', 'scan_interface'), 'binascii.unhexlify(addr))', 'binascii.unhexlify(addr)[::-1])'),
     'tcp_claims_udp': (('cflib.crtp.tcpdriver', 'TcpDriver', 'connect'), "'^tcp://'", "'^udp://'"),
     'lookup_break_on_wrong_type': (('cflib.crtp', None, 'get_link_driver'), 'continue', 'break'),
     'open_link_narrow_except': (('cflib.crazyflie', 'Crazyflie', 'open_link'), 'except Exception as ex:', 'except KeyError as ex:'),
@@ -735,10 +767,12 @@ def build_sessions(tier, rng):
                 ops.append({'e': 'open', 'u': u})
         for i in range(0, len(ops), 60):
             sessions.append({'env': env, 'ops': ops[i:i + 60]})
-    # --- E. scans
+    # --- E. scans.  In range: Crazyflies on the scanned address and other members of the fleet on other
+    #        addresses -- an unrelated one and the neighbours of the scanned address (fleet_neighbours); none of
+    #        the others may show up under a URI that parses to an address it does not sit on.
     scan_addrs = [[], DEFAULT_ADDR, [0, 0, 0, 0, 1], [0xE7, 0xE7, 0xE7, 0xE7, 1], [0, 0, 0, 0, 0], [0, 0x0A, 0, 0, 0],
-                  [1, 2, 3, 4, 5], [0xFF] * 5, [0x0E, 0x7E, 0x7E, 0x7E, 0x70]]
-    nscan = 24 if quick else 2000
+                  [1, 2, 3, 4, 5], [0xFF] * 5, [0x0E, 0x7E, 0x7E, 0x7E, 0x70], [0, 0, 0, 0x0A, 0xB5]]
+    nscan = 30 if quick else 2000
     ops = []
     for i in range(nscan):
         sa = scan_addrs[i % len(scan_addrs)] if i < 2 * len(scan_addrs) else \
@@ -747,15 +781,33 @@ def build_sessions(tier, rng):
         resp = []
         for _ in range(rng.randint(0, 4)):
             resp.append({'chan': rng.choice([0, 2, 80, 125, rng.randrange(126)]), 'rate': rng.randrange(3), 'addr': list(eff)})
-        if rng.random() < 0.5:      # a Crazyflie on another address must not be reported
-            other = [b ^ 1 for b in eff]
-            resp.append({'chan': rng.randrange(126), 'rate': rng.randrange(3), 'addr': other})
+        others = fleet_neighbours(eff)
+        if len(scan_addrs) <= i < 2 * len(scan_addrs):
+            pick = others                                   # second pass over the fixed addresses: the whole fleet
+        else:
+            pick = [a for a in others if rng.random() < 0.3]
+        for a in pick:      # a Crazyflie on another address must not be reported
+            resp.append({'chan': rng.randrange(126), 'rate': rng.randrange(3), 'addr': a})
         resp = [r for j, r in enumerate(resp) if r not in resp[:j]]
         ops.append({'e': 'scan', 'sa': list(sa), 'resp': resp})
     for i in range(0, len(ops), 6):
         sessions.append({'env': ENVS[(i // 6) % 5], 'ops': ops[i:i + 6]})
     sessions.append({'env': ENVS[5], 'ops': ops[:2]})      # no dongle attached
     return sessions, exhaustive_parse
+
+
+def fleet_neighbours(a):
+    """Addresses of other Crazyflies of a fleet relative to address a: one bit off in every byte, last byte + 1,
+    bytes mirrored, bytes rotated by one, nibbles swapped in every byte, shifted by one hex digit, and the default
+    address -- distinct from a and from each other."""
+    cand = [[b ^ 1 for b in a], a[:4] + [(a[4] + 1) % 256], a[::-1], a[1:] + a[:1],
+            [((b << 4) | (b >> 4)) & 0xFF for b in a],
+            [((a[i] << 4) | ((a[i + 1] >> 4) if i < 4 else 0)) & 0xFF for i in range(5)], list(DEFAULT_ADDR)]
+    out = []
+    for c in cand:
+        if c != a and c not in out:
+            out.append(c)
+    return out
 
 
 def random_radio(rng, env):
@@ -841,7 +893,7 @@ def judge(out, traces, label, count=True):
     for i, t in enumerate(traces):
         t['id'] = i + 1
     slim = [{'id': t['id'], 'env': t['env'], 'classes': t['classes'],
-             'ev': [{k: v for k, v in e.items() if k != 'uris'} for e in t['ev']]} for t in traces]
+             'ev': [{k: v for k, v in e.items() if k not in ('uris', 's', 'k')} for e in t['ev']]} for t in traces]
     verdicts, st = common.validate_traces('UriTrace.tla', 'TRACE_Uri.cfg', slim)
     if count:
         out.traces += len(traces)
@@ -881,7 +933,9 @@ def isolate(env, ev):
         o = {'e': 'scan', 'sa': ev['sa'], 'resp': ev['resp']}
     else:
         o = {'e': ev['e'], 'u': ev['u']}
-    return {'env': env, 'ops': [o]}
+    # same enumeration order of the dongles as when the operation was recorded (a serial-number URI is
+    # rendered from it), and no replug phase: the single operation on its own
+    return {'env': env, 'ops': [o], 'order': ev.get('k', 0), 'replug': False}
 
 
 def _size(ev):
@@ -929,8 +983,9 @@ def report_violations(out, verdicts):
             sess, v = whole, v2
             sig = sig + '/needs-history'
         e2 = v.trace['ev'][v.allbad[0][0] - 1] if v.allbad else v.trace['ev'][0]
-        detail = {'uri': render(e2['u']) if 'u' in e2 else None, 'occurrences_this_run': n,
-                  'event': {k: x for k, x in e2.items() if k != 'found'}, 'env': env, 'classes': v.trace['classes']}
+        detail = {'uri': e2.get('s'), 'occurrences_this_run': n,
+                  'event': {k: x for k, x in e2.items() if k not in ('found', 's', 'k')}, 'env': env,
+                  'classes': v.trace['classes']}
         out.violation(signature(e2, v.clause) + ('/needs-history' if sig.endswith('/needs-history') else ''),
                       v.clause, detail, {'session': sess})
     return total
@@ -944,7 +999,7 @@ def _tlc_parallel(jobs, nthreads=4):
         return [f.result() for f in futs]
 
 
-BUGS = ('empty_path', 'pad_right', 'reverse_addr', 'default_chan', 'two_claim', 'escape', 'scan_no_addr')
+BUGS = ('empty_path', 'pad_right', 'reverse_addr', 'default_chan', 'two_claim', 'escape', 'scan_no_addr', 'scan_addr_reversed')
 
 
 def main(tier, seed, replay=None):
@@ -956,6 +1011,8 @@ def main(tier, seed, replay=None):
     out.assumptions = [
         'token -> string rendering (harness render()) is trusted; dongle serials are 10 upper-case hex characters as reported by the fake USB bus',
         'data rate codes 0/1/2 = 250K/1M/2M and address bytes most significant first (string order) are the Crazyradio USB protocol',
+        'during a scan other Crazyflies of the fleet may be in range on other addresses (an unrelated one, the scanned address with bytes mirrored / rotated / nibble-swapped / shifted by one digit, last byte + 1, the default address); they answer only probes sent to their own address',
+        'budget: one real call may grow the process by at most 512 MB of address space; beyond that the code under test gets a MemoryError, recorded like any exception it raises',
         'an unrecognised rate token, channels > 125, > 10 address digits, repeated/unknown query options are outside both the well-formed and the malformed set (not judged)',
         '"no driver" = get_link_driver returns None or raises; after open_link Crazyflie.link is None and connection_failed fired at least once',
         'unknown scheme is relative to the configured driver list (serial:// without enable_serial_driver); USE_CFLINK=cpp (needs the cflinkcpp extension) is not covered',
@@ -967,8 +1024,8 @@ def main(tier, seed, replay=None):
             for (idx, clause) in v.allbad:
                 ev = v.trace['ev'][idx - 1]
                 out.violation(signature(ev, clause), clause,
-                              {'uri': render(ev['u']) if 'u' in ev else None,
-                               'event': {k: x for k, x in ev.items() if k != 'found'}, 'env': v.trace['env']},
+                              {'uri': ev.get('s'),
+                               'event': {k: x for k, x in ev.items() if k not in ('found', 's', 'k')}, 'env': v.trace['env']},
                               {'session': isolate(v.trace['env'], ev)})
         return out.finish()
 
@@ -1000,8 +1057,8 @@ def main(tier, seed, replay=None):
                 matched += 1
             elif len(mismatches) < 3:
                 e = t['ev'][idx]
-                mismatches.append({'uri': render(e['u']) if 'u' in e else None,
-                                   'event': {k: x for k, x in e.items() if k not in ('found', 'u')}})
+                mismatches.append({'uri': e.get('s'),
+                                   'event': {k: x for k, x in e.items() if k not in ('found', 'u', 's', 'k')}})
     out.conformance['spec_to_code'] = {'behaviours': len(sims), 'operations': n_ops, 'matched': matched}
     if mismatches:
         out.conformance['spec_to_code']['first_mismatches'] = mismatches
@@ -1033,14 +1090,14 @@ def main(tier, seed, replay=None):
                 'behaviours of Uri.tla; parse_uri exhaustively over {dongle numbers, attached serials} x omission shapes nf 0..2 '
                 'x channels 0..125 x 3 rates x rate limits, and the address strings of addr_space() x channels {0,2,80,125} x 3 rates '
                 '(%d parse cases incl. seeded random ones); every scheme x well-formed/malformed form x 6 environments (driver lists '
-                'with/without serial driver, prrt, pyserial) through claim/lookup/open; scans over 9 fixed + random addresses with '
-                'random responders. distinct = distinct (environment, operation, input)' % exhaustive_parse)
+                'with/without serial driver, prrt, pyserial) through claim/lookup/open; scans over 10 fixed + random addresses with '
+                'random responders on the scanned address and on the addresses of fleet_neighbours(). distinct = distinct (environment, operation, input)' % exhaustive_parse)
     picks = [t for t in traces if t['ev']]
     for t in (picks[0], picks[len(picks) // 2], picks[-1]):
         e = t['ev'][len(t['ev']) // 2]
         out.samples.append({'env': t['env'], 'classes': t['classes'],
-                            'uri': render(e['u']) if 'u' in e else e.get('uris'),
-                            'event': {k: v for k, v in e.items() if k not in ('found', 'u')}})
+                            'uri': e['s'] if 'u' in e else e.get('uris'),
+                            'event': {k: v for k, v in e.items() if k not in ('found', 'u', 's', 'k')}})
 
     # 4. sensitivity: in-memory mutants of the code under test must be rejected by the monitor (one pool, one batch)
     probe = mutant_probe_sessions()
@@ -1066,6 +1123,12 @@ def main(tier, seed, replay=None):
         n_new = sum(1 for v, b in zip(per[name], base) if v.clause != 'ok' and v.clause != b)
         out.sensitivity['mutant:' + name] = '%d of %d probe operations newly rejected (%s)' % (n_new, len(probe), ', '.join(new) or '-')
         if not new:
+            if out.violations and any(b != 'ok' for b in base):
+                # the tree under test is itself rejected on the probe operations (and that has been reported):
+                # the mutant cannot be told from it there -- no statement about the monitor, nothing to raise
+                out.sensitivity['mutant:' + name] += ' -- not distinguishable: the tree under test is itself rejected on %d probe operations' % \
+                    sum(b != 'ok' for b in base)
+                continue
             raise common.MachineryError('monitor did not reject in-memory mutant %s' % name)
     # binding self-tests: a corrupted recorded result / a dropped entry must be rejected
     t0c = copy.deepcopy(next(t for t in traces if any(e['e'] == 'parse' and e['r']['ok'] and e['u']['nf'] == 3 for e in t['ev'])))
@@ -1108,4 +1171,8 @@ def mutant_probe_sessions():
             ops.append({'e': 'open', 'u': u})
     ops.append({'e': 'scan', 'sa': [0, 0, 0, 0, 1], 'resp': [{'chan': 80, 'rate': 2, 'addr': [0, 0, 0, 0, 1]}]})
     ops.append({'e': 'scan', 'sa': [], 'resp': [{'chan': 10, 'rate': 0, 'addr': list(DEFAULT_ADDR)}]})
+    # a fleet: one Crazyflie on the scanned address, the others on its neighbours
+    a = [0xE7, 0xE7, 0xE7, 0xE7, 0x01]
+    ops.append({'e': 'scan', 'sa': a, 'resp': [{'chan': 80, 'rate': 2, 'addr': a}] +
+                [{'chan': 20 + 7 * i, 'rate': i % 3, 'addr': b} for i, b in enumerate(fleet_neighbours(a))]})
     return [{'env': env, 'ops': [o], 'order': 0, 'replug': False} for o in ops]
